@@ -414,6 +414,7 @@ def render(info):
     L.append("")
     L.append("(* MagicResolver.__call__: method_to_invoke(args) - number of explicit positional arguments *)")
     L.append("Definition resolver_call_args : nat := %d." % info["call_nargs"])
+    L.append("Definition accepts_args_call (m : magic) : bool := accepts_call resolver_call_args m.")
     L.append("")
     for name in sorted(info["decorators"]):
         d = info["decorators"][name]
